@@ -348,7 +348,9 @@ parse_number_part(std::istream& is, number_struct& numer) {
     is.get(c);
   } while (!is.fail());
 
-  if (empty_mantissa || is.bad()) {
+  if (empty_mantissa || is.bad()
+      || (state == EXPONENT && empty_exponent)) {
+    // Nothing, or only the sign, follows the exponent marker.
     return V_CVT_STR_UNK;
   }
 
